@@ -95,6 +95,8 @@ def DistinctIdx (d : Derive.Decl) : Prop :=
 structure FaithfulD (docs : Bool) (env : TyExpr → Option Derive.Decl) (S : TyExpr → Prop)
     (reg : PortableRegistry) (idOf : TyExpr → Nat) : Prop where
   ident : ∀ t, idOf t = idOf (Impls.identity t)
+  /-- a registry holds identities: with an alias such as `Box<Adt>` the set contains the user type behind it -/
+  idClosed : ∀ t, S t → S (Impls.identity t)
   res : ∀ t ty, S t → typeInfoD docs env t = some ty → resolve reg (idOf t) = some (ty.map idOf)
   closed : ∀ t ty, S t → typeInfoD docs env t = some ty → ∀ r ∈ ty.refs, S r
   decls : ∀ n a d, S (.adt n a) → env (.adt n a) = some d → DistinctIdx d ∧ (Derive.typeInfo docs d).isSome
